@@ -1,19 +1,27 @@
 ----------------------------- MODULE RunnerOps -----------------------------
 (* The stop decisions of Runner::run_one and run_eqsat as pure operators     *)
 (* (shared by Runner.tla and the trace specification TraceRewrite.tla).      *)
+(* Time is in milliseconds: e = the time that has elapsed on the loop's own  *)
+(* clock when the limits are looked at.                                      *)
 EXTENDS Naturals, TLC
 
 (* it = number of iterations finished BEFORE this one *)
-RunnerStopL(iterLimit, nodeLimit, it, ret, hookOk, n) ==
+(* Runner::run_one: hooks -> limits (iterations, nodes, time: strictly more  *)
+(* than the limit) -> saturation                                             *)
+RunnerStopL(iterLimit, nodeLimit, timeLimit, it, ret, hookOk, n, e) ==
   IF ~hookOk THEN "other"
   ELSE IF it > iterLimit THEN "iter"
   ELSE IF n > nodeLimit THEN "node"
+  ELSE IF e > timeLimit THEN "time"
   ELSE IF ~ret THEN "saturated"
   ELSE "none"
 
-EqsatStopL(iterLimit, it, ret, hookOk) ==
+(* run_eqsat: hook -> saturated? -> iterations >= iter_limit -> whole        *)
+(* seconds elapsed >= time_limit (the limit is given in seconds)             *)
+EqsatStopL(iterLimit, timeLimit, it, ret, hookOk, e) ==
   IF ~hookOk THEN "other"
   ELSE IF ~ret THEN "saturated"
   ELSE IF it >= iterLimit THEN "iter"
+  ELSE IF e >= timeLimit THEN "time"
   ELSE "none"
 =============================================================================
